@@ -78,7 +78,7 @@ Definition rat_to_float_fast_gen (P : enc_params) (NB DB OV UN : Z) (N D : Z) : 
   if N =? 0 then 0 else
   let neg := N <? 0 in
   let num_shift := blen (Z.abs N) - NB in
-  let numK := if 0 <=? num_shift then Z.abs N / 2 ^ num_shift else Z.abs N * 2 ^ (- num_shift) in
+  let numK := if 0 <=? num_shift then Z.abs (N / 2 ^ num_shift) else Z.abs N * 2 ^ (- num_shift) in
   let den_shift := blen D - DB in
   let denK := if 0 <=? den_shift then D / 2 ^ den_shift else D * 2 ^ (- den_shift) in
   let exponent := num_shift - den_shift in
@@ -94,7 +94,7 @@ Definition rat_to_float_fast_gen (P : enc_params) (NB DB OV UN : Z) (N D : Z) : 
 Definition fast_quotient (P : enc_params) (N D : Z) : Z * Z :=
   let K := MB P + 1 in
   let num_shift := blen (Z.abs N) - 2 * K in
-  let numK := if 0 <=? num_shift then Z.abs N / 2 ^ num_shift else Z.abs N * 2 ^ (- num_shift) in
+  let numK := if 0 <=? num_shift then Z.abs (N / 2 ^ num_shift) else Z.abs N * 2 ^ (- num_shift) in
   let den_shift := blen D - K in
   let denK := if 0 <=? den_shift then D / 2 ^ den_shift else D * 2 ^ (- den_shift) in
   let man := numK / denK in
